@@ -1194,9 +1194,20 @@ package ion
 //@    len(result) == len(d.n.String())+1 && result[len(d.n.String())-int(d.scale)] == '.'
 //@ safe[C06,C14]
 
-//@ func (Timestamp).String
-//@ trusted assumed pure (time.Format-based formatting is outside the engine's subset)
+// A timestamp with a time of day and unknown offset is never spelled with "+00:00" (which would
+// read back as UTC): the text time.Format produced is corrected to "-00:00" (C15, C01). The
+// rest of the text (time.Format, the layout) is outside the engine's subset.
+//@ func (TimestampPrecision).Layout
+//@ trusted thin: called by contract (the layout text is not under contract)
 //@ modifies nothing
+
+//@ func (Timestamp).String
+//@ split returns
+//@ modifies nothing
+//@ invariant loop0 true
+//@ ensures[C01,C15] ts.precision >= TimestampPrecisionMinute && (ts.precision < TimestampPrecisionNanosecond || ts.numFractionalSeconds == 0) && ts.kind == TimezoneUnspecified && len(result) >= 6 ==>
+//@    !(result[len(result)-6] == '+' && result[len(result)-5] == '0' && result[len(result)-4] == '0' && result[len(result)-3] == ':' && result[len(result)-2] == '0' && result[len(result)-1] == '0')
+//@ safe[C06]
 
 // Internal helpers of the writers: for the sticky-error proofs of their callers it is
 // enough that they are called by contract (no frame claim, no postcondition: the caller
